@@ -79,6 +79,8 @@ func cmdProp(args []string) {
 	verbose := fs.Bool("v", false, "verbose")
 	keep := fs.String("dump", "", "keep SMT files here")
 	noEvidence := fs.Bool("no-evidence", false, "do not write evidence (used by selftest)")
+	noReplay := fs.Bool("no-replay", false, "do not replay counterexamples on the real code")
+	replaysOpt := fs.String("replays", "", "directory for replay files (default <verif>/replays)")
 	fs.Parse(args)
 	t0 := time.Now()
 	seed := 0
@@ -100,6 +102,9 @@ func cmdProp(args []string) {
 	}
 	findings := readFindings(filepath.Join(*verif, "KNOWN_FINDINGS.txt"))
 	replayDir := filepath.Join(*verif, "replays", cfg.ID)
+	if *replaysOpt != "" {
+		replayDir = filepath.Join(*replaysOpt, cfg.ID)
+	}
 	os.RemoveAll(replayDir)
 	os.MkdirAll(replayDir, 0o755)
 
@@ -186,6 +191,11 @@ func cmdProp(args []string) {
 	}
 
 	total, discharged := 0, 0
+	replaysDone, maxReplays := 0, 4
+	if *tier == "thorough" {
+		maxReplays = 12
+		replayIndirectBudget = 240 * time.Second
+	}
 	var known []string
 	var obRecords []map[string]any
 	var samples []any
@@ -227,7 +237,8 @@ func cmdProp(args []string) {
 			fmt.Fprintf(os.Stderr, "FAILED %-7s %-6s %s\n", ob.Result, ob.Solver, ob.Name)
 			payload := map[string]any{"result": ob.Result, "solver": ob.Solver, "solver_output": trunc(ob.Model, 20000), "position": ob.Pos, "function": ob.Func, "smt_file_kept": ""}
 			noInput := true
-			if ob.Result == "sat" {
+			if !*noReplay && replaysDone < maxReplays && (ob.Result == "sat" || ob.Result == "unknown" || ob.Result == "timeout") {
+				replaysDone++
 				rp := replayObligation(ctx, u, ob, scfg, replayDir)
 				for k, v := range rp.payload {
 					payload[k] = v
